@@ -110,7 +110,7 @@ def run(ctx):
     obs = os.path.join(d, "obs.ndjson")
     rc, o = goharness.run_test_bin(ctx, tb, "^TestVerifAccess$", cwd=os.path.join(common.REPO, PKG), timeout=ctx.pick(900, 2400),
                                    env={"VERIF_OUT": out, "VERIF_TABLE": table, "VERIF_CODEC_TABLE": codec, "VERIF_SAMPLE": 0,
-                                        "VERIF_OBS": obs, "VERIF_OBS_STRIDE": ctx.pick(160, 60)})
+                                        "VERIF_OBS": obs, "VERIF_OBS_STRIDE": ctx.pick(160, 100)})
     goharness.check_driver(rc, o, "daemon access driver")
     recs = common.read_ndjson(out)
     summ = [r for r in recs if r["k"] == "summary"]
